@@ -475,7 +475,7 @@ def one_norm_value(cx):
     import quimb.tensor as qtn
     import quimb.tensor.belief_propagation as qbp
 
-    reps = 1 if cx.quick else 5
+    reps = 1 if cx.quick else 10
     sizes_n = [1, 2, 3, 4, 6, 9] if cx.quick else list(range(1, 10))
     for flavour in ONE_NORM:
         kinds = KINDS_SIMPLE + (KINDS_HYPER if flavour in ("HD1BP", "HV1BP") else [])
@@ -586,7 +586,7 @@ def one_norm_marginals(cx):
     import quimb.tensor.belief_propagation as qbp
     from quimb.tensor.belief_propagation import bp_common
 
-    reps = 1 if cx.quick else 6
+    reps = 1 if cx.quick else 8
     sizes_n = [1, 2, 3, 5, 8] if cx.quick else list(range(1, 9))
     kinds = KINDS_SIMPLE + KINDS_HYPER
     for flavour, kind, n, data, rep in itertools.product(["HD1BP", "HV1BP"], kinds, sizes_n,
@@ -751,8 +751,9 @@ def make_two_norm_case(seed, flavour, kind, n, data, vector_like=None, single=No
         out = ref.outer()
         psi = ref.psi(out)
         norm2 = float(np.sum(np.abs(psi) ** 2))
-        # the norm must not be a near-cancellation of the bond sums
-        if norm2 > 0 and np.sqrt(norm2) >= 1e-3 * ref.zabs / np.sqrt(max(psi.size, 1)) * 1e-2:
+        # the norm must not be a near-cancellation of the bond sums (root-mean-square entry of psi >= 1e-2 x the
+        # mean sum of |terms| per entry)
+        if data == "pos" or (norm2 > 0 and np.sqrt(norm2) >= 1e-2 * ref.zabs / np.sqrt(max(psi.size, 1))):
             break
     else:
         return None
@@ -843,7 +844,7 @@ def two_norm_value(cx):
     import quimb.tensor as qtn
     import quimb.tensor.belief_propagation as qbp
 
-    reps = 1 if cx.quick else 5
+    reps = 1 if cx.quick else 10
     sizes_n = [1, 2, 3, 4, 6, 9] if cx.quick else list(range(1, 10))
     for flavour, kind, n, data, rep in itertools.product(["D2BP", "L2BP"], KINDS_SIMPLE, sizes_n,
                                                          ["pos", "signed", "complex"], range(reps)):
@@ -1017,7 +1018,7 @@ def gauging(cx):
     import quimb.tensor as qtn
     import quimb.tensor.belief_propagation as qbp
 
-    reps = 1 if cx.quick else 4
+    reps = 1 if cx.quick else 6
     sizes_n = [1, 2, 3, 5, 8] if cx.quick else list(range(1, 9))
     for kind, n, data, rep in itertools.product(KINDS_SIMPLE, sizes_n, ["pos", "signed", "complex"], range(reps)):
         seed = int(cx.rng.integers(1 << 31))
@@ -1218,7 +1219,7 @@ def two_norm_sampling(cx):
     import quimb.tensor as qtn
     import quimb.tensor.belief_propagation as qbp
 
-    reps = 1 if cx.quick else 5
+    reps = 1 if cx.quick else 8
     sizes_n = [1, 2, 4, 7] if cx.quick else list(range(1, 8))
     for kind, n, data, phys2, rep in itertools.product(KINDS_SIMPLE, sizes_n, ["pos", "signed", "complex"], [True, False],
                                                        range(reps)):
@@ -1626,7 +1627,7 @@ def bp_objects(cx):
     import quimb.tensor as qtn
     import quimb.tensor.belief_propagation as qbp
 
-    reps = 1 if cx.quick else 4
+    reps = 1 if cx.quick else 6
     sizes_n = [2, 5] if cx.quick else [2, 3, 4, 5, 7]
     for flavour, methods in OBJ_METHODS.items():
         two = flavour in ("D2BP", "L2BP")
